@@ -94,6 +94,29 @@ Proof.
   rewrite P. do 3 f_equal. apply tab2_ext. intros i n Hi Hn. now rewrite E.
 Qed.
 
+(* the symbolic run of the loop body (goal: runs_to (body_pre ..) (exec ext01 <body> (set_var "hyp_idx" k st)), after the
+   introduction of st k lf Hk and the fifteen lookups of body_pre); shared by the body of sm_loop and the body of the
+   loop inside sm_body (TieBody.v), which differ in the name of a temporary only *)
+Ltac body_script k Hk :=
+    push_state;
+    asg; asg; asg;
+    assign ltac:(ev; replace (Z.of_nat k - 1)%Z with (Z.of_nat (k - 1)) by lia; rewrite select0_mat by lia; evn; reflexivity);
+    asg; asg;
+    ifstep; rewrite exec_seq_assoc;
+    setitem; rewrite !exec_seq_assoc;
+    assign ltac:(evn; rewrite min_dim_3 by lia; reflexivity);
+    rewrite !exec_seq_assoc; asg; asg; asg; ifstep; ifstep;
+    apply runs_to_ok; unfold body_pre; repeat (split; [assumption|]);
+    match goal with L : lookup "row" _ = _ |- _ => rewrite L end;
+    do 3 f_equal; apply tab2_ext; intros ? ? ? ?;
+    replace (Z.of_nat k - 1)%Z with (Z.of_nat (k - 1)) by lia;
+    match goal with
+    | Hi0 : (?i0 < S ?R0)%nat
+      |- context [zf ?s0 (nth ?i0 (C01.Model.step_row ?ci0 ?cd0 ?cs0 (colf ?R0 ?rf0 ?n0) (colf ?H0 ?hf0 ?n0) (?hl0 ?n0) false k
+                                    (colf _ ?lf0 ?n0)) _)] =>
+        apply (step_entry_src ci0 cd0 cs0 R0 H0 (fun j => rf0 j n0) (fun t => hf0 t n0) (fun i1 => lf0 i1 n0) (hl0 n0) k Hk s0 i0 Hi0)
+    end.
+
 Section Body.
   Variables (s : positive) (ci cd cs : Z) (R N H : nat) (rf hf : nat -> nat -> Z) (hl : nat -> nat).
   Variables (vrl vmult vnorm vwarn : val).
@@ -109,19 +132,7 @@ Section Body.
             (exec ext01 loop_body (set_var "hyp_idx" (VInt (Z.of_nat k)) st)).
   Proof.
     intros st k lf Hk (Hexcl & Hmist & Hmask & Hprf & Hhl & Href & Hhyp & Hci & Hcs & Hdm & Hrl & Hmu & Hno & Hwa & Hrow).
-    unfold loop_body, sm_loop. cbv iota. push_state.
-    asg. asg. asg.
-    assign ltac:(ev; replace (Z.of_nat k - 1)%Z with (Z.of_nat (k - 1)) by lia; rewrite select0_mat by lia; evn; reflexivity).
-    asg. asg.
-    ifstep. rewrite exec_seq_assoc.
-    setitem. rewrite !exec_seq_assoc.
-    assign ltac:(evn; rewrite min_dim_3 by lia; reflexivity).
-    rewrite !exec_seq_assoc. asg. asg. asg. ifstep. ifstep.
-    apply runs_to_ok. unfold body_pre. repeat (split; [assumption|]).
-    match goal with L : lookup "row" _ = _ |- _ => rewrite L end.
-    do 3 f_equal. apply tab2_ext. intros i n Hi Hn.
-    replace (Z.of_nat k - 1)%Z with (Z.of_nat (k - 1)) by lia.
-    apply (step_entry_src ci cd cs R H (fun j => rf j n) (fun t => hf t n) (fun i => lf i n) (hl n) k Hk s i Hi).
+    unfold loop_body, sm_loop. cbv iota. unfold step_col. body_script k Hk.
   Qed.
 
   (* ---- the loop: range(1, H + 1) ------------------------------------------------------------------------- *)
@@ -131,35 +142,52 @@ Section Body.
   Lemma step_col_length k lf n : (1 <= k <= H)%nat -> List.length (step_col k lf n) = S R.
   Proof. intros Hk. unfold step_col, colf. now apply step_row_length. Qed.
 
+  (* any body with the property of [body_run], iterated by `for hyp_idx in range(1, max_hyp_steps + 1)` *)
+  Section AnyBody.
+    Variable bd : stmt.
+    Hypothesis Hbd : forall st k lf, (1 <= k <= H)%nat -> pre lf st ->
+      runs_to (pre (fun i n => nth i (step_col k lf n) 0%Z))
+              (exec ext01 bd (set_var "hyp_idx" (VInt (Z.of_nat k)) st)).
+
+    Lemma loop_run_gen : forall m a lf st, (a + m <= H)%nat -> pre lf st ->
+      runs_to (pre (fun i n => nth i (iter_col m a lf n) 0%Z))
+              (for_loop ext01 "hyp_idx" bd (map (fun i => VInt (1 + Z.of_nat i)) (seq a m)) st).
+    Proof.
+      induction m as [|m IH]; intros a lf st Ham P.
+      - apply runs_to_ok. eapply body_pre_ext; [|exact P].
+        intros i n Hi Hn. cbv beta. unfold iter_col, iter_rows, colf. rewrite Proofs.nth_map_seq by exact Hi. reflexivity.
+      - rewrite <- cons_seq. cbn [map for_loop].
+        replace (1 + Z.of_nat a)%Z with (Z.of_nat (S a)) by lia.
+        destruct (Hbd st (S a) lf ltac:(lia) P) as [st1 [He P1]]. rewrite He. cbn [bind].
+        destruct (IH (S a) _ st1 ltac:(lia) P1) as [st2 [He2 P2]]. exists st2. split; [exact He2|].
+        eapply body_pre_ext; [|exact P2].
+        intros i n Hi Hn. cbv beta. f_equal. unfold iter_col. cbn [iter_rows]. f_equal.
+        transitivity (map (fun i0 => nth i0 (step_col (S a) lf n) 0%Z) (seq 0 (List.length (step_col (S a) lf n)))).
+        { rewrite step_col_length by lia. reflexivity. }
+        apply Proofs.map_nth_seq.
+    Qed.
+
+    Lemma zrange_1 : forall n, zrange 1 (Z.of_nat n + 1) = map (fun i => VInt (1 + Z.of_nat i)) (seq 0 n).
+    Proof. intros n. unfold zrange. replace (Z.to_nat (Z.of_nat n + 1 - 1)) with n by lia. reflexivity. Qed.
+
+    Theorem loop_tie_gen : forall st lf, pre lf st -> lookup "max_hyp_steps" (vars st) = Some (VInt (Z.of_nat H)) ->
+      runs_to (pre (fun i n => nth i (iter_col H 0 lf n) 0%Z)) (exec ext01 (SFor "hyp_idx" loop_iter bd) st).
+    Proof.
+      intros st lf P Hmax. rewrite exec_for.
+      assert (Hexcl : lookup "exclude_last" (vars st) = Some (VBool false)) by apply P.
+      assert (Hit : eval ext01 loop_iter st = Ok (VList (zrange 1 (Z.of_nat H + 1))) st).
+      { unfold loop_iter, sm_loop. cbv iota. ev. reflexivity. }
+      rewrite Hit. cbn [bind iter_items container_items]. rewrite zrange_1.
+      apply loop_run_gen; [lia|exact P].
+    Qed.
+  End AnyBody.
+
   Lemma loop_run : forall m a lf st, (a + m <= H)%nat -> pre lf st ->
     runs_to (pre (fun i n => nth i (iter_col m a lf n) 0%Z))
             (for_loop ext01 "hyp_idx" loop_body (map (fun i => VInt (1 + Z.of_nat i)) (seq a m)) st).
-  Proof.
-    induction m as [|m IH]; intros a lf st Ham P.
-    - apply runs_to_ok. eapply body_pre_ext; [|exact P].
-      intros i n Hi Hn. cbv beta. unfold iter_col, iter_rows, colf. rewrite Proofs.nth_map_seq by exact Hi. reflexivity.
-    - rewrite <- cons_seq. cbn [map for_loop].
-      replace (1 + Z.of_nat a)%Z with (Z.of_nat (S a)) by lia.
-      destruct (body_run st (S a) lf ltac:(lia) P) as [st1 [He P1]]. rewrite He. cbn [bind].
-      destruct (IH (S a) _ st1 ltac:(lia) P1) as [st2 [He2 P2]]. exists st2. split; [exact He2|].
-      eapply body_pre_ext; [|exact P2].
-      intros i n Hi Hn. cbv beta. f_equal. unfold iter_col. cbn [iter_rows]. f_equal.
-      transitivity (map (fun i0 => nth i0 (step_col (S a) lf n) 0%Z) (seq 0 (List.length (step_col (S a) lf n)))).
-      { rewrite step_col_length by lia. reflexivity. }
-      apply Proofs.map_nth_seq.
-  Qed.
-
-  Lemma zrange_1 : forall n, zrange 1 (Z.of_nat n + 1) = map (fun i => VInt (1 + Z.of_nat i)) (seq 0 n).
-  Proof. intros n. unfold zrange. replace (Z.to_nat (Z.of_nat n + 1 - 1)) with n by lia. reflexivity. Qed.
+  Proof. exact (loop_run_gen loop_body body_run). Qed.
 
   Theorem loop_tie : forall st lf, pre lf st -> lookup "max_hyp_steps" (vars st) = Some (VInt (Z.of_nat H)) ->
     runs_to (pre (fun i n => nth i (iter_col H 0 lf n) 0%Z)) (exec ext01 sm_loop st).
-  Proof.
-    intros st lf P Hmax. rewrite sm_loop_eq, exec_for.
-    assert (Hexcl : lookup "exclude_last" (vars st) = Some (VBool false)) by apply P.
-    assert (Hit : eval ext01 loop_iter st = Ok (VList (zrange 1 (Z.of_nat H + 1))) st).
-    { unfold loop_iter, sm_loop. cbv iota. ev. reflexivity. }
-    rewrite Hit. cbn [bind iter_items container_items]. rewrite zrange_1.
-    apply loop_run; [lia|exact P].
-  Qed.
+  Proof. rewrite sm_loop_eq. exact (loop_tie_gen loop_body body_run). Qed.
 End Body.
